@@ -2354,8 +2354,14 @@ def clone(node: Node) -> Node:
       return x.copy()
     if isinstance(x, (list, set)):
       return type(x)(copy_mutable(v) for v in x)
+    if isinstance(x, tuple):
+      items = [copy_mutable(v) for v in x]
+      return type(x)(*items) if hasattr(x, '_fields') else type(x)(items)
     if isinstance(x, dict):
-      return {k: copy_mutable(v) for k, v in x.items()}
+      y = x.copy()  # keeps dict subclasses such as OrderedDict
+      for k, v in x.items():
+        y[k] = copy_mutable(v)
+      return y
     return x
 
   state = jax.tree.map(
